@@ -27,6 +27,16 @@ def scale_programs(tier='quick'):
             f'{VAR} k = a;\nk[{n // 3}] = "shared";\n{P} a[{n // 3}];\n{P} {N["min"]}(a) ;\n')
         add(f'min-max-{n}', f'{P} {N["min"]}({", ".join(str((i * 7 + 3) % (n + 5)) for i in range(n))});\n{P} {N["max"]}([{", ".join(str((i * 11 + 1) % (n + 9)) for i in range(n))}]);\n')
 
+    # ---- a site that saw thousands of values of one kind then meets another kind (a specialised fast path must fall back)
+    for n in ([4500] if not big else [300, 1100, 4500, 7000]):
+        for op in ['+', '-', '*', '/', '<', '==']:
+            add(f'kind-change-after-{n}-{op}',
+                f'{FUN} ap(a, b) {{ {RET} a {op} b; }}\n{VAR} acc = 0;\n{FOR} ({VAR} i = 0; i < {n}; i = i + 1) {{ acc = ap(i, 2); }}\n{P} acc;\n{P} ap("x", 2);\n{P} ap(2, "y");\n{P} ap("3", "4");\n{P} ap([1], 2);\n{P} "still here";\n{P} ap(nil, 1);\n{P} "not reached";\n')
+        add(f'kind-change-in-loop-{n}', f'{VAR} data = [];\n{FOR} ({VAR} i = 0; i < {n}; i = i + 1) {{ data = {N["append"]}(data, i % 10); }}\ndata = {N["append"]}(data, nil, 5);\n{VAR} sum = 0;\n{FOR} ({VAR} k = 0; k < {N["len"]}(data); k = k + 1) {{ sum = sum + data[k]; }}\n{P} sum;\n')
+        add(f'truthiness-change-after-{n}', f'{VAR} flag = 1;\n{VAR} c = 0;\n{FOR} ({VAR} i = 0; i < {n + 5}; i = i + 1) {{ {IF} (i == {n}) {{ flag = ""; }} {IF} (i == {n + 2}) {{ flag = "x"; }} {IF} (flag) {{ c = c + 1; }} }}\n{P} c;\n')
+    for n in ([5003] if not big else [4095, 4096, 4097, 5003, 20001]):
+        nums = ', '.join(str((i * 7919) % 100003) for i in range(n - 1))
+        add(f'min-max-tail-{n}', f'{P} {N["max"]}({nums}, 100004);\n{P} {N["min"]}({nums}, -5);\n{P} {N["max"]}([{nums}, 100005]);\n{P} {N["min"]}([{nums}, -6]);\n{P} {N["max"]}([100006, {nums}]);\n')
     # ---- objects
     for n in ([20, 60] if not big else [9, 17, 20, 33, 60, 129, 300]):
         props = ', '.join(f'k{i}: {i}' for i in range(n))
